@@ -60,6 +60,9 @@ BUILT["C16"]=("bounded-exhaustive enumeration of output types / key forms / netw
 BUILT["C14"]=("explicit-state breadth-first search over PSBT operation histories (states = real Psbt values deduplicated by BIP174 serialisation)",
         "For each descriptor pair of a 15-member family, ALL histories of update / add-signature / add-preimage / finalize / finalize_mall / finalize_inp / finalize_inp_mall up to the depth bound (most pairs reach closure) are executed on real two-input PSBTs; on every transition: finalized inputs validate on the reference Script machine, final inputs are never altered by finalization, a failing finalize leaves the input byte-identical, idempotence, result consistency, order independence of data actions (one state per action set), extract succeeds iff all inputs are final and the extracted transaction validates, update records scripts / origins / taproot data that verify, sighash_msg equals the independent digest.",
         "3 C14")
+BUILT["C18"]=("exhaustive enumeration of policies up to a node bound with truth-table (all assignments) oracles",
+        "ALL semantic policies up to the node bound over 12 atoms (repeated atoms, TRIVIAL/UNSATISFIABLE children, thresholds with every k): normalized/sorted keep the truth table over all assignments, at_age/at_lock_time equal the restriction for every value around every lock in both units, n_keys, minimum_n_keys vs exhaustive assignment search; entails vs truth-table implication on ALL ordered pairs up to the pair bound; concrete policies: lift keeps the truth table, check_timelocks fires iff some satisfying path mixes units.",
+        "3 C18")
 NA_REASON={}
 
 def hooks_commits():
